@@ -567,4 +567,193 @@ theorem tradingPeriod_secs_ne_zero (t0 : Int) (ps : List Exit) : (specTradingPer
   have := Rat.intCast_eq_zero_iff.mp h
   omega
 
+/-! ### the checked run -/
+
+theorem Exit.panics_iff (p : Exit) :
+    p.panics = true ↔ p.closed.priceEntryAverage * p.closed.quantityAbsMax = 0 := by
+  simp [Exit.panics, TearSheet.Closed.panics]
+
+theorem runChecked_eq (f : Rat → Rat) (ps : List Exit) : ∀ g : Gen,
+    Gen.runChecked f g ps = if ps.any Exit.panics then none else some (Gen.run f g ps) := by
+  induction ps with
+  | nil => intro g; rfl
+  | cons p ps ih =>
+    intro g
+    by_cases hp : p.panics = true
+    · simp [Gen.runChecked, Gen.updateChecked, hp]
+    · simp only [Gen.runChecked, Gen.updateChecked, hp, if_false, Bool.false_eq_true, List.any_cons,
+        Bool.false_or, ih]
+      rfl
+
+theorem runChecked_none_iff (f : Rat → Rat) (g : Gen) (ps : List Exit) :
+    Gen.runChecked f g ps = none ↔ ∃ p ∈ ps, p.panics = true := by
+  rw [runChecked_eq]
+  by_cases h : ps.any Exit.panics = true
+  · simp only [h, if_true, true_iff]
+    simpa using h
+  · simp only [h, if_false, Bool.false_eq_true]
+    constructor
+    · intro h'; cases h'
+    · intro h'; exact absurd (by simpa using h') h
+
+/-- One call with the panic explicit. -/
+def Gen.stepChecked (f : Rat → Rat) (g : Gen) : Step → Option Gen
+  | .pos p => g.updateChecked f p
+  | .gen rf iv => some (g.generate f rf iv).1
+
+/-- Any sequence of `update_from_position` / `generate` calls; `none` = one of them panicked. -/
+def Gen.execChecked (f : Rat → Rat) : Gen → List Step → Option Gen
+  | g, [] => some g
+  | g, s :: steps =>
+    match g.stepChecked f s with
+    | none => none
+    | some g' => Gen.execChecked f g' steps
+
+theorem execChecked_eq (f : Rat → Rat) (steps : List Step) : ∀ g : Gen,
+    Gen.execChecked f g steps =
+      if (positionsOf steps).any Exit.panics then none else some (Gen.exec f g steps) := by
+  induction steps with
+  | nil => intro g; rfl
+  | cons s steps ih =>
+    intro g
+    cases s with
+    | pos p =>
+      by_cases hp : p.panics = true
+      · simp [Gen.execChecked, Gen.stepChecked, Gen.updateChecked, hp, positionsOf]
+      · simp only [Gen.execChecked, Gen.stepChecked, Gen.updateChecked, hp, if_false,
+          Bool.false_eq_true, ih, positionsOf, List.filterMap_cons, List.any_cons, Bool.false_or]
+        rfl
+    | gen rf iv =>
+      simp only [Gen.execChecked, Gen.stepChecked, ih, positionsOf, List.filterMap_cons]
+      rfl
+
+/-! ### curves that never have a positive value: C18's decomposition reports nothing -/
+
+theorem decline_nonpos_peak {p v : Rat} (hp : p ≤ 0) (hv : v ≤ p) : Drawdown.decline p v ≤ 0 := by
+  rcases Rat.le_iff_lt_or_eq.mp hp with h | h
+  · unfold Drawdown.decline
+    have hne : p ≠ 0 := by grind
+    have e : (p - v) / p * p = p - v := Rat.div_mul_cancel hne
+    apply Rat.not_lt.mp
+    intro hpos
+    have := Rat.mul_pos hpos (show 0 < -p by grind)
+    grind
+  · rw [h, Drawdown.decline_zero_peak]; exact Rat.le_refl
+
+theorem mem_takeWhile_imp' {α} (f : α → Bool) : ∀ (l : List α) (x : α), x ∈ l.takeWhile f → f x = true := by
+  intro l
+  induction l with
+  | nil => intro x hx; simp at hx
+  | cons a l ih =>
+    intro x hx
+    by_cases ha : f a = true
+    · rw [List.takeWhile_cons_of_pos ha] at hx
+      rcases List.mem_cons.mp hx with rfl | hx
+      · exact ha
+      · exact ih x hx
+    · rw [List.takeWhile_cons_of_neg ha] at hx; simp at hx
+
+theorem depthOf_nonpos_peak (p : Drawdown.Pt) (seg : List Drawdown.Pt) (hp : p.v ≤ 0)
+    (h : ∀ q ∈ seg, q.v ≤ p.v) : Drawdown.depthOf p seg = 0 := by
+  unfold Drawdown.depthOf
+  rcases Drawdown.largest_eq_zero_or_mem (seg.map fun q => Drawdown.decline p.v q.v) with h0 | hm
+  · exact h0
+  · obtain ⟨q, hq, e⟩ := List.mem_map.mp hm
+    have h1 := decline_nonpos_peak hp (h q hq)
+    have h2 := Drawdown.largest_nonneg (seg.map fun q => Drawdown.decline p.v q.v)
+    rw [← e] at h2 ⊢
+    grind
+
+theorem decompose_nonpos : ∀ (n : Nat) (pts : List Drawdown.Pt), pts.length ≤ n →
+    (∀ q ∈ pts, q.v ≤ 0) → Drawdown.decompose pts = ([], none) := by
+  intro n
+  induction n with
+  | zero =>
+    intro pts hl _
+    have : pts = [] := List.length_eq_zero_iff.mp (by omega)
+    subst this; simp [Drawdown.decompose]
+  | succ n ih =>
+    intro pts hl h
+    cases pts with
+    | nil => simp [Drawdown.decompose]
+    | cons p rest =>
+      have hp : p.v ≤ 0 := h p (by simp)
+      have hseg : ∀ q ∈ rest.takeWhile (fun q => decide (q.v ≤ p.v)), q.v ≤ p.v := by
+        intro q hq
+        simpa using (mem_takeWhile_imp' _ _ q hq)
+      have hd : ∀ t, Drawdown.ddOf p (rest.takeWhile (fun q => decide (q.v ≤ p.v))) t = none := by
+        intro t
+        simp [Drawdown.ddOf, depthOf_nonpos_peak p _ hp hseg]
+      rw [Drawdown.decompose_cons]
+      have hsub := List.dropWhile_sublist (fun q : Drawdown.Pt => decide (q.v ≤ p.v)) (l := rest)
+      have hrem := ih (rest.dropWhile (fun q => decide (q.v ≤ p.v)))
+        (by have := hsub.length_le; simp only [List.length_cons] at hl; omega)
+        (fun q hq => h q (by simp [hsub.subset hq]))
+      cases hh : (rest.dropWhile (fun q => decide (q.v ≤ p.v))).head? with
+      | none => simp [hd]
+      | some q => simp [hd, hrem]
+
+/-- The cumulative-PnL curve of a history none of whose positions made a profit never rises above
+zero. -/
+theorem pnlCurve_nonpos (ds : List (Int × Rat)) : ∀ (pnl : Rat), pnl ≤ 0 → (∀ d ∈ ds, d.2 ≤ 0) →
+    ∀ q ∈ Drawdown.pnlCurve pnl ds, q.v ≤ 0 := by
+  induction ds with
+  | nil => intro pnl _ _ q hq; simp [Drawdown.pnlCurve] at hq
+  | cons d ds ih =>
+    intro pnl hp h q hq
+    obtain ⟨t, x⟩ := d
+    have hx : x ≤ 0 := h (t, x) (by simp)
+    simp only [Drawdown.pnlCurve, List.mem_cons] at hq
+    rcases hq with hq | hq
+    · rw [hq]; simp only; grind
+    · exact ih (pnl + x) (by grind) (fun d hd => h d (by simp [hd])) q hq
+
+theorem specCurve_nonpos_of_no_win (ps : List Exit) (h : ∀ p ∈ ps, p.closed.pnlRealised ≤ 0) :
+    ∀ q ∈ specCurve ps, q.v ≤ 0 := by
+  unfold specCurve
+  apply pnlCurve_nonpos _ 0 Rat.le_refl
+  intro d hd
+  obtain ⟨p, hp, e⟩ := List.mem_map.mp hd
+  rw [← e]; exact h p hp
+
+/-! ### approximate roots: what a round trip multiplies by -/
+
+theorem le_one_of_sq_le_one {x : Rat} (h : x * x ≤ 1) : x ≤ 1 := by
+  apply Rat.not_lt.mp
+  intro hx
+  have h1 : x * 1 < x * x := Rat.mul_lt_mul_of_pos_left hx (by grind)
+  grind
+
+theorem one_lt_of_one_lt_sq {x : Rat} (h0 : 0 ≤ x) (h : 1 < x * x) : 1 < x := by
+  apply Rat.not_le.mp
+  intro hx
+  have h1 : x * x ≤ x * 1 := Rat.mul_le_mul_of_nonneg_left hx h0
+  grind
+
+/-- Two lower approximations `a ≈ √n`, `b ≈ √m` (each within `ε` from below) of reciprocal numbers
+`n·m = 1`: their product is at most 1 and misses 1 by less than `ε·(a + b + ε)`. -/
+theorem root_product_bounds {a b n m ε : Rat} (ha : 0 ≤ a) (hb : 0 ≤ b) (hε : 0 ≤ ε)
+    (h1 : a * a ≤ n) (h2 : b * b ≤ m) (h3 : n < (a + ε) * (a + ε)) (h4 : m < (b + ε) * (b + ε))
+    (hnm : n * m = 1) : a * b ≤ 1 ∧ 1 - ε * (a + b + ε) < a * b := by
+  have haa : 0 ≤ a * a := Rat.mul_nonneg ha ha
+  have hbb : 0 ≤ b * b := Rat.mul_nonneg hb hb
+  have hn : 0 ≤ n := Rat.le_trans haa h1
+  have hm : 0 ≤ m := Rat.le_trans hbb h2
+  constructor
+  · apply le_one_of_sq_le_one
+    have e1 : a * a * (b * b) ≤ n * (b * b) := Rat.mul_le_mul_of_nonneg_right h1 hbb
+    have e2 : n * (b * b) ≤ n * m := Rat.mul_le_mul_of_nonneg_left h2 hn
+    have e3 : a * b * (a * b) = a * a * (b * b) := by grind
+    grind
+  · have hA : 0 ≤ a + ε := by grind
+    have hB : 0 ≤ b + ε := by grind
+    have hBB : 0 < (b + ε) * (b + ε) := by grind
+    have e1 : n * m ≤ n * ((b + ε) * (b + ε)) := Rat.mul_le_mul_of_nonneg_left (by grind) hn
+    have e2 : n * ((b + ε) * (b + ε)) < (a + ε) * (a + ε) * ((b + ε) * (b + ε)) :=
+      Rat.mul_lt_mul_of_pos_right h3 hBB
+    have e3 : (a + ε) * (b + ε) * ((a + ε) * (b + ε)) = (a + ε) * (a + ε) * ((b + ε) * (b + ε)) := by
+      grind
+    have := one_lt_of_one_lt_sq (Rat.mul_nonneg hA hB) (by grind)
+    grind
+
 end BarterModel.Metrics
